@@ -21,7 +21,10 @@ JUDGE = "AlgebraJudge"
 JUDGE_CFG = "AlgebraJudge.cfg"
 CHUNK = 60000
 
-GROUPS = ["functor", "optmonad", "eitmonad", "optapp", "eitapp", "seq", "once", "order"]
+GROUPS = ["functor", "optmonad", "eitmonad", "optapp", "eitapp", "seq", "once", "order",
+          # extension round
+          "refs", "ext", "seqerr", "variant4", "do"]
+GROUP_N = {"do": 2}   # size of the element domain where it is not 3
 
 # (bug constant, group of cases, law that must fail)
 GUARDS = [
@@ -54,6 +57,20 @@ GUARDS = [
     ("less_flip", "order", "LawOptOrder"),
     ("var_less_value_only", "order", "LawVarOrder"),
     ("compare_ignores_type", "order", "LawVarCompare"),
+    # extension round
+    ("chain_skips_second", "optmonad", "LawOptChain"),
+    ("either_bind_post", "eitmonad", "LawEitChain"),
+    ("from_pointer_null_some", "refs", "LawPointerRoundTrip"),
+    ("copy_value_first_cell", "refs", "LawCopyValue"),
+    ("assign_returns_copy", "ext", "LawAssign"),
+    ("to_exception_always_throws", "ext", "LawToException"),
+    ("output_no_space", "ext", "LawOutput"),
+    ("construct_inverted", "ext", "LawConstruct"),
+    ("make_failure_is_success", "ext", "LawConstruct"),
+    ("sequence_error_continues", "seqerr", "LawSequenceError"),
+    ("assign_keeps_index", "variant4", "LawVariantAssign"),
+    ("dynamic_cast_last", "variant4", "LawDynamicCast"),
+    ("do_drops_first", "do", "LawDo"),
 ]
 
 
@@ -87,8 +104,8 @@ def model_check(ctx):
         bug, group, law = t
         cfg = os.path.join(ctx.workdir, "vac_%s_%s.cfg" % (bug, law))
         with open(cfg, "w") as f:
-            f.write('SPECIFICATION Spec\nCONSTANTS\n  N = 3\n  Bug = "%s"\n  Group = "%s"\n  MaxLen = 3\nINVARIANT %s\n'
-                    % (bug, group, law))
+            f.write('SPECIFICATION Spec\nCONSTANTS\n  N = %d\n  Bug = "%s"\n  Group = "%s"\n  MaxLen = 3\nINVARIANT %s\n'
+                    % (GROUP_N.get(group, 3), bug, group, law))
         r = vlib.tlc("AlgebraMC", cfg, workers=2, timeout=900, xmx="2g", tag="AlgebraVac", expect=law)
         if law not in r.invariant_violated:
             raise vlib.Infra("vacuity guard: Bug=%s did not violate %s (group %s)\n%s" % (
@@ -108,9 +125,9 @@ TAG_RE = re.compile(r'"t":("?\w+"?)')
 def klass(line):
     """(combinator, categories, tags of the value arguments, number of continuation calls)"""
     pre, _, post = line.partition(',"res":')
-    m = re.match(r'\{"f":"(\w+)","cat":"(\w*)","a":', pre)
+    m = re.match(r'\{"f":"(\w+)","cat":"([^"]*)","a":', pre)
     a = pre[m.end():]
-    for k in (',"d":', ',"tf":', ',"i":'):
+    for k in (',"d":', ',"tf":', ',"i":', ',"st":', ',"x":', ',"types":'):
         a = a.split(k)[0]
     return (m.group(1), m.group(2), tuple(TAG_RE.findall(a)), post.count('"fn":'))
 
@@ -181,6 +198,18 @@ def judge_file(ctx, path, what, rc, out, seed, tier):
             if any(w.startswith("HARNESS") for w in b["why"]):
                 raise vlib.Infra("harness emitted a record outside the model's vocabulary / precondition: %s" % line[:300])
             rec = json.loads(line)
+            if "OBSERVED-ONLY" in b["why"]:
+                # a record kind outside the statement of C04: judged, never a violation
+                why = sorted(w for w in b["why"] if w != "OBSERVED-ONLY")
+                obs = ctx.extra.setdefault("observations", {"count": 0, "by_kind": {}, "samples": []})
+                obs["count"] += 1
+                key = "%s:%s" % (b["op"], "+".join(why))
+                obs["by_kind"][key] = obs["by_kind"].get(key, 0) + 1
+                if len(obs["samples"]) < 20 and obs["by_kind"][key] <= 2:
+                    obs["samples"].append({"kind": b["op"], "disagrees_in": why, "record": rec})
+                    print("OBSERVATION (outside the statement of C04, not a violation): %s disagrees with the model in %s: %s"
+                          % (b["op"], ",".join(why), line[:300]))
+                continue
             ctx.reject(signature(b), "%s: the model cannot explain %s [%s] (%s); record: %s" % (
                 what, b["op"], rec.get("cat", ""), ",".join(sorted(b["why"])), line[:500]),
                 {"f": b["op"], "seed": seed, "tier": tier, "record": rec})
@@ -192,7 +221,59 @@ def judge_file(ctx, path, what, rc, out, seed, tier):
     ctx.evaluations += n
     ctx.traces_validated += n
     ctx.extra["records_rejected"] = ctx.extra.get("records_rejected", 0) + nbad
+    ctx.extra.setdefault("observations", {"count": 0, "by_kind": {}, "samples": []})
     return n
+
+
+def corruption_selftest(ctx, path):
+    """Binding demonstration on the recorded log itself: for every record kind take a real record and
+    (a) replace its result by the result of another record of the same kind, (b) drop its continuation
+    calls / append a duplicate of the first one.  The judge must reject every corrupted record."""
+    first = {}
+    other = {}
+    withcalls = {}
+    with open(path) as f:
+        for line in f:
+            m = re.match(r'\{"f":"(\w+)"', line)
+            if not m:
+                continue
+            k = m.group(1)
+            pre, _, post = line.rstrip("\n").partition(',"res":')
+            res, _, calls = post.rpartition(',"calls":')
+            if k not in first:
+                first[k] = (pre, res, calls)
+            elif k not in other and res != first[k][1]:
+                other[k] = res
+            if k not in withcalls and calls != "[]}":
+                withcalls[k] = (pre, res, calls)
+    corrupted = []
+    for k, (pre, res, calls) in first.items():
+        if k in other:
+            corrupted.append((k, "result", pre + ',"res":' + other[k] + ',"calls":' + calls))
+    for k, (pre, res, calls) in withcalls.items():
+        corrupted.append((k, "calls-dropped", pre + ',"res":' + res + ',"calls":[]}'))
+        one = calls[1:-2].split("},{")[0]
+        one = one if one.endswith("}") else one + "}"
+        corrupted.append((k, "call-duplicated", pre + ',"res":' + res + ',"calls":[' + one + "," + calls[1:]))
+    cpath = os.path.join(ctx.workdir, "corrupted.ndjson")
+    with open(cpath, "w") as f:
+        for _, _, l in corrupted:
+            f.write(l + "\n")
+    r = vlib.tlc(JUDGE, JUDGE_CFG, workers=1, env={"TRACE": cpath}, timeout=600, xmx="2g", tag="AlgebraCorrupt")
+    v = vlib._verdict_lines(r.out)
+    if "VERDICT" not in v:
+        raise vlib.Infra("corruption self-test: no verdict:\n%s" % "\n".join(r.out.splitlines()[-20:]))
+    vd = v["VERDICT"][-1]
+    rejected = set(b["l"] for b in vd["bad"])
+    missed = [(k, what) for i, (k, what, _) in enumerate(corrupted) if (i + 1) not in rejected]
+    if vd["nbad"] > 300:
+        missed = []  # more than the verbatim cap: compare counts only
+        if vd["nbad"] != len(corrupted):
+            raise vlib.Infra("corruption self-test: %d of %d corrupted records rejected" % (vd["nbad"], len(corrupted)))
+    if missed:
+        raise vlib.Infra("corruption self-test: corrupted records accepted by the judge: %s" % missed[:10])
+    ctx.extra["corruption_selftest"] = {"corrupted_records": len(corrupted), "rejected": vd["nbad"],
+                                        "kinds_with_result_corruption": len(other), "kinds_with_call_corruption": len(withcalls)}
 
 
 def run(ctx):
@@ -200,6 +281,8 @@ def run(ctx):
     binary = build()
     path = os.path.join(ctx.workdir, "records.ndjson")
     rc, out = vlib.run_harness(binary, ["record", path, ctx.seed, ctx.tier], timeout=1500)
+    if rc == 0:
+        corruption_selftest(ctx, path)
     n = judge_file(ctx, path, "recorded call", rc, out, ctx.seed, ctx.tier)
     try:
         os.unlink(path)
